@@ -41,9 +41,13 @@ def m_unprintable_month(payload):
     inp = payload.get("input")
     impl = payload.get("impl")
     lim = sys.get_int_max_str_digits() if hasattr(sys, "get_int_max_str_digits") else 0
-    return (isinstance(inp, dict) and isinstance(inp.get("s"), str) and impl is not None
+    if not (isinstance(inp, dict) and isinstance(inp.get("s"), str) and impl is not None
             and list(impl) == ["escape", "ValueError"] and lim > 0 and _longest_digit_run(inp["s"]) > lim
-            and payload.get("kind", "").startswith("parse() outcome outside"))
+            and payload.get("kind", "").startswith("parse() outcome outside")):
+        return False
+    # ... and the faithful model escapes with exactly the class the theorem's guard names
+    # (ValueErrorNoStr = reply [3, 8]; C14_escape_characterised): matcher = complement of the guard
+    return PC.model_raw(PC.opts_from_json(inp.get("opts")), inp["s"]) == [3, 8]
 
 
 MATCHERS = {"m_unprintable_month": m_unprintable_month}
